@@ -66,6 +66,14 @@ func judgeAll(c *core.Ctx, swagger string, groups []modelrig.Group, pass string)
 		}
 		mo := oracleFor(r.Unit)
 		j := mo.Judge(r.Case.Def, r.Case.Variant.Doc)
+		// a valid polymorphic document must decode through the base type and its containers
+		if r.Group.Placed.Atom.Poly && j.RefValid && j.Unspecified == "" && r.Ans.UnmarshalErr != "" && r.Ans.Panic == "" {
+			bad[who] = true
+			c.Eval(who + "/poly-decode")
+			c.Violation(fmt.Sprintf("C05/"+pass+"%s/subtype-not-restored", who), fmt.Sprintf("a valid polymorphic document does not decode (%s): %s (document %s)", r.Case.Variant.Path, r.Ans.UnmarshalErr, jx.Compact(r.Case.Variant.Doc)),
+				map[string]string{"spec.json": string(jx.Marshal(r.Unit.Spec)), "document.json": jx.Compact(r.Case.Variant.Doc), "observed.txt": r.Ans.UnmarshalErr})
+			continue
+		}
 		// only documents valid for the schema, and decoded by the generated model
 		if !(j.RefValid || r.Group.Placed.Atom.NoValidate || r.Group.Placed.Atom.Tuple) || j.Unspecified != "" || r.Ans.UnmarshalErr != "" || r.Ans.Panic != "" {
 			skippedInvalid++
@@ -121,8 +129,14 @@ func judgeAll(c *core.Ctx, swagger string, groups []modelrig.Group, pass string)
 		// polymorphism: concrete subtype restored
 		if r.Group.Placed.Atom.Poly && r.Case.Variant.Path == "via-base" {
 			kind, _ := r.Case.Variant.Doc.(J)["kind"].(string)
+			want := kind
+			for dn, dv := range r.Unit.Spec["definitions"].(J) { // subtype named through x-class
+				if dj, _ := dv.(J); dj != nil && dj["x-class"] == kind {
+					want = dn
+				}
+			}
 			c.Eval(who + "/poly-restored/" + kind)
-			if !strings.HasSuffix(strings.ToLower(r.Ans.GoType), strings.ToLower(kind)) {
+			if !strings.HasSuffix(strings.ToLower(r.Ans.GoType), strings.ToLower(want)) {
 				bad[who] = true
 				c.Violation(fmt.Sprintf("C05/"+pass+"%s/subtype-not-restored", who), fmt.Sprintf("document with discriminator %q decoded through the base type gives Go type %s", kind, r.Ans.GoType), files(r.Ans.GoType))
 			}
